@@ -45,6 +45,7 @@ type TSOpt struct {
 	IgnoreFiles   []string
 	BannerFile    bool
 	Name          string
+	NoOutbox      bool // do not start an outbox consumer (the caller runs ListenAndServe, which starts its own)
 }
 
 type TS struct {
@@ -82,7 +83,8 @@ func guestAccess() hotline.AccessBitmap {
 }
 
 func writeAccount(dir string, a AcctSpec) error {
-	acc := hotline.NewAccount(a.Login, a.Name, a.Password, a.Access)
+	// The server stores bcrypt(obfuscated password bytes as sent on the wire): see HandleNewUser / handleNewConnection.
+	acc := hotline.NewAccount(a.Login, a.Name, string(hotline.EncodeString([]byte(a.Password))), a.Access)
 	acc.FileRoot = a.FileRoot
 	b, err := yaml.Marshal(acc)
 	if err != nil {
@@ -165,7 +167,7 @@ func newTS(opt TSOpt) (*TS, error) {
 	mobius.RegisterHandlers(srv)
 	if opt.Direct {
 		go ts.collect()
-	} else {
+	} else if !opt.NoOutbox {
 		go srv.VerifProcessOutbox()
 	}
 	return ts, nil
